@@ -235,6 +235,12 @@ type World struct {
 	snapDone []bool // Close was called on that snapshot
 	iters    []db.Iterator
 	poisoned bool // a call never returned (it may still hold a lock): the backend is not used any more
+	// stacks of wrappers (stack.go): layers[i] = the db.BufferBatch / db.SyncBatch made by the i-th lnew (nil:
+	// not made); seq: this world runs the REFERENCE semantics of the wrappers (a buffer is the log of its calls,
+	// Flush replays it in call order; a SyncBatch is the batch it wraps) instead of db.BufferBatch / db.SyncBatch
+	layers    []db.IndexedBatch
+	layerKind []string
+	seq       bool
 }
 
 func NewWorld(b Backend) (*World, error) {
@@ -465,6 +471,23 @@ func (w *World) Exec(o Op) (out string) {
 	}
 }
 
+// smallHintPanics: set by probeSmallBatchHint while Pebble panics on an empty batch made with a size hint
+// below its 12-byte batch header (finding 4); the sequences then stay at or above 12
+var smallHintPanics bool
+
+// batchSizeOf: the size hint of New(Indexed)BatchWithSize: 64, 0, 1 MiB, or a hint below / at Pebble's 12-byte
+// batch header (o.Key2 is free on newbatch: it carries the choice, so that replays keep it)
+func batchSizeOf(o Op) int {
+	if len(o.Key2) == 0 {
+		return 64
+	}
+	small := []int{1, 11, 12}[int(o.Key2[0]>>2)%3]
+	if smallHintPanics && small < 12 {
+		small = 12
+	}
+	return []int{64, 0, small, 1 << 20}[o.Key2[0]&3]
+}
+
 func (w *World) batch(h int) db.Batch {
 	if h < 0 || h >= len(w.batches) {
 		return nil
@@ -527,11 +550,11 @@ func (w *World) exec(o Op) string {
 		var b db.Batch
 		switch {
 		case o.Idx && o.U:
-			b = w.store.NewIndexedBatchWithSize(64)
+			b = w.store.NewIndexedBatchWithSize(batchSizeOf(o))
 		case o.Idx:
 			b = w.store.NewIndexedBatch()
 		case o.U:
-			b = w.store.NewBatchWithSize(64)
+			b = w.store.NewBatchWithSize(batchSizeOf(o))
 		default:
 			b = w.store.NewBatch()
 		}
@@ -677,8 +700,21 @@ func (w *World) exec(o Op) string {
 		return strings.Join(outs, ";") + " -> " + classify(err)
 	case "xupdate":
 		return w.xupdate(o)
+	case "lnew", "lput", "ldel", "ldelrange", "lget", "lhas", "lscan", "lsize", "lwrite", "lclose", "lflush":
+		return w.execLayer(o)
 	case "psize":
 		return w.prefixSize(bs(o.Key, o.NilB), o.U)
+	case "path":
+		// Helper.Path(): the backends name different places by design; what they share is that an open store
+		// names ONE place, the same on every call (db/memory makes a directory on the first call)
+		p1, p2 := w.store.Path(), w.store.Path()
+		switch {
+		case p1 != p2:
+			return "path:changes-between-calls"
+		case p1 == "":
+			return "path:empty"
+		}
+		return "path:stable"
 	case "flush":
 		if w.st.flush == nil || w.closed {
 			return "ok"
